@@ -195,6 +195,7 @@ pub fn faultrun(args: &Args) -> i32 {
         obs_seed: seed ^ case,
         scan_cases: 1,
         fifo: false,
+        fifo_desc: false,
         known: crate::load_known(args),
         focus: Some("C16".into()),
         filter_large_len: 300,
